@@ -73,6 +73,62 @@ func replayStreamFromChan(clck clock.Clock, points <-chan edge.PointMessage, col
 // maxRecordingLineSize is the longest line of a stream recording that can be replayed.
 const maxRecordingLineSize = 64 * 1024 * 1024
 
+// newRecordingSplitFunc returns the split function for a stream recording:
+// records of three lines, database, retention policy and a point in line protocol.
+// The line protocol writer leaves a line feed in a string field value as it is,
+// so the third line ends at the first line feed that is not inside a quoted field value.
+func newRecordingSplitFunc() bufio.SplitFunc {
+	n := 0
+	return func(data []byte, atEOF bool) (advance int, token []byte, err error) {
+		if n%3 != 2 {
+			advance, token, err = bufio.ScanLines(data, atEOF)
+		} else {
+			advance, token, err = scanLineProtocolLine(data, atEOF)
+		}
+		if advance > 0 {
+			n++
+		}
+		return
+	}
+}
+
+// scanLineProtocolLine is like bufio.ScanLines but treats line feeds inside a quoted
+// field value as part of the line, the same way the line protocol parser does.
+func scanLineProtocolLine(data []byte, atEOF bool) (advance int, token []byte, err error) {
+	dropCR := func(b []byte) []byte {
+		if len(b) > 0 && b[len(b)-1] == '\r' {
+			return b[:len(b)-1]
+		}
+		return b
+	}
+	quoted, fields := false, false
+	equals, commas := 0, 0
+	for i := 0; i < len(data); i++ {
+		switch c := data[i]; {
+		case c == '\\':
+			// Skip the escaped character.
+			i++
+		case c == '\n' && !quoted:
+			return i + 1, dropCR(data[:i]), nil
+		case c == ' ' && !fields:
+			// The first unescaped space ends the measurement and tags.
+			fields = true
+		case !fields || c == '\n':
+		case c == '=' && !quoted:
+			equals++
+		case c == ',' && !quoted:
+			commas++
+		case c == '"' && equals > commas:
+			// Quotes are only significant in a field value.
+			quoted = !quoted
+		}
+	}
+	if atEOF && len(data) > 0 {
+		return len(data), dropCR(data), nil
+	}
+	return 0, nil, nil
+}
+
 func readPointsFromIO(data io.ReadCloser, points chan<- edge.PointMessage, precision string) error {
 	defer data.Close()
 	defer close(points)
@@ -82,6 +138,7 @@ func readPointsFromIO(data io.ReadCloser, points chan<- edge.PointMessage, preci
 	in := bufio.NewScanner(data)
 	// The default token limit of 64KiB is less than a single point with a large string field.
 	in.Buffer(make([]byte, 0, bufio.MaxScanTokenSize), maxRecordingLineSize)
+	in.Split(newRecordingSplitFunc())
 	for in.Scan() {
 		db := in.Text()
 		if !in.Scan() {
